@@ -78,6 +78,10 @@ type DiffOut struct {
 
 // DiffOpts lets a check wrap the source pool / writers.
 type DiffOpts struct {
+	// TargetSig, when set, is a signature stream describing the old build (as written by the diff that
+	// released it); it is read back with pwr.ReadSignature and used instead of signing oldDir directly -
+	// the way butler diffs against a downloaded signature.
+	TargetSig   []byte
 	WrapPool    func(lake.Pool) lake.Pool
 	PatchWriter func(io.Writer) io.Writer
 	SigWriter   func(io.Writer) io.Writer
@@ -86,9 +90,20 @@ type DiffOpts struct {
 // Diff diffs oldDir -> newDir exactly like butler/wharf's tests: walk both,
 // sign old, WritePatch.
 func Diff(oldDir, newDir string, comp Comp, opts *DiffOpts) (*DiffOut, error) {
-	tc, th, err := Sign(oldDir)
-	if err != nil {
-		return nil, fmt.Errorf("sign old: %w", err)
+	var tc *tlc.Container
+	var th []wsync.BlockHash
+	var err error
+	if opts != nil && opts.TargetSig != nil {
+		si, err := ReadSig(opts.TargetSig)
+		if err != nil {
+			return nil, fmt.Errorf("read old signature: %w", err)
+		}
+		tc, th = si.Container, si.Hashes
+	} else {
+		tc, th, err = Sign(oldDir)
+		if err != nil {
+			return nil, fmt.Errorf("sign old: %w", err)
+		}
 	}
 	sc, err := Walk(newDir)
 	if err != nil {
